@@ -334,7 +334,7 @@ def read_pobs(fname, full_output=False, gz=True, separator_insertion=None):
     else:
         if fname.endswith('.gz'):
             warnings.warn("Trying to read from %s without unzipping!" % fname, UserWarning)
-        with open(fname, 'r') as fin:
+        with open(fname, 'rb') as fin:
             content = fin.read()
 
     # parse xml file content
@@ -615,7 +615,7 @@ def read_dobs(fname, full_output=False, gz=True, separator_insertion=True):
     else:
         if fname.endswith('.gz'):
             warnings.warn("Trying to read from %s without unzipping!" % fname, UserWarning)
-        with open(fname, 'r') as fin:
+        with open(fname, 'rb') as fin:
             content = fin.read()
 
     return import_dobs_string(content, full_output, separator_insertion=separator_insertion)
